@@ -170,6 +170,132 @@ Section Tokens.
   Qed.
 End Tokens.
 
+(* ---- the first character of the span of certain rules (e.g. the bracket of macro_args): known from the rule's
+   body, it makes `start + 1` a character boundary ---- *)
+Section First.
+  Variable code : list N.
+  Variable first : string -> option N.
+
+  Definition node_first (r : string) (s : N) : Prop :=
+    match first r with
+    | Some c => exists pre post, code = (pre ++ c :: post)%list /\ blen pre = s
+    | None => True
+    end.
+
+  Fixpoint tree_first (t : ptree) : Prop :=
+    match t with
+    | Node r s e kids =>
+        node_first r s /\
+        (fix all (l : list ptree) : Prop := match l with [] => True | k :: l' => tree_first k /\ all l' end) kids
+    end.
+
+  Fixpoint all_first (l : list ptree) : Prop := match l with [] => True | k :: l' => tree_first k /\ all_first l' end.
+
+  Lemma tree_first_unfold r s e kids : tree_first (Node r s e kids) <-> node_first r s /\ all_first kids.
+  Proof.
+    cbn [tree_first]. split; intros [H1 H2]; (split; [exact H1|]); clear H1;
+      induction kids as [|k kids IH]; cbn [all_first] in *; auto; destruct H2 as [Hk H2]; split; auto.
+  Qed.
+
+  Lemma all_first_app a b : all_first a -> all_first b -> all_first (a ++ b).
+  Proof. induction a as [|k a IH]; cbn [app all_first]; [auto|]. intros [Hk Ha] Hb. split; auto. Qed.
+
+  Fixpoint first_ok (e : expr) : bool :=
+    match e with
+    | ERule name _ _ body =>
+        (match first name with
+         | Some c => match body with ESeq (EStr [c']) _ => c' =? c | _ => false end
+         | None => true
+         end) && first_ok body
+    | ESeq a b | EChoice a b => first_ok a && first_ok b
+    | EOpt x | ERep x | EPos x | ENeg x => first_ok x
+    | _ => true
+    end.
+
+  Hypothesis eoi_none : forall c, first "EOI"%string = Some c -> False.
+  Variable U : uclass -> N -> bool.
+  Variable sk : input -> option input.
+  Hypothesis sk_adv : forall j j', sk j = Some j' -> adv j j'.
+
+  Lemma rep_loop_first (f : input -> res) :
+    (forall j j' t, suffix code j -> f j = Ok j' t -> adv j j' /\ all_first t) ->
+    forall fuel i acc i' t,
+      suffix code i -> all_first acc -> rep_loop f fuel i acc = Ok i' t -> all_first t.
+  Proof.
+    intros Hf. induction fuel as [|x fuel IH]; intros i acc i' t Hs Hacc H; cbn [rep_loop] in H; [discriminate|].
+    destruct (f i) as [| |j tj] eqn:Ef.
+    - inversion H; subst. exact Hacc.
+    - discriminate.
+    - destruct (pos i <? pos j); [|discriminate].
+      destruct (Hf _ _ _ Hs Ef) as [Ha Ht].
+      eapply IH; [eapply suffix_adv; eauto| |exact H]. apply all_first_app; assumption.
+  Qed.
+
+  Theorem run_first : forall e a look i i' t,
+    first_ok e = true -> suffix code i -> run U sk e a look i = Ok i' t -> all_first t.
+  Proof.
+    induction e as [s|lo hi| | | |c|name ty impl body IHb|x IHx y IHy|x IHx y IHy|x IHx|x IHx|ss|x IHx|x IHx];
+      intros a look i i' t Hso Hs H; cbn [first_ok] in Hso; cbn [run] in H.
+    - destruct (strip_prefix s (rest i)); [|discriminate]. inversion H; subst. exact I.
+    - destruct (rest i) as [|c r]; [discriminate|]. destruct ((lo <=? c) && (c <=? hi)); [|discriminate].
+      inversion H; subst. exact I.
+    - destruct (rest i) as [|c r]; [discriminate|]. inversion H; subst. exact I.
+    - destruct (pos i =? 0); [|discriminate]. inversion H; subst. exact I.
+    - destruct (rest i); [|discriminate]. inversion H; subst.
+      destruct (emits RNormal a look); cbn [all_first]; [|exact I]. split; [|exact I].
+      apply tree_first_unfold. split; [|exact I]. unfold node_first.
+      (* EOI never has a first character: first "EOI" must be None -- required below *)
+      pose proof eoi_none as Hen. destruct (first "EOI"%string) as [c0|]; [|exact I]. exfalso. exact (Hen c0 eq_refl).
+    - destruct (rest i) as [|d r]; [discriminate|]. destruct (U c d); [|discriminate]. inversion H; subst. exact I.
+    - apply andb_true_iff in Hso. destruct Hso as [Hname Hbody].
+      destruct (run U sk body (inner_atomicity ty impl a) look i) as [| |j kids] eqn:Eb; try discriminate.
+      pose proof (IHb _ _ _ _ _ Hbody Hs Eb) as Hk.
+      destruct (emits ty _ look); inversion H; subst; [|exact Hk].
+      cbn [all_first]. split; [|exact I]. apply tree_first_unfold. split; [|exact Hk].
+      unfold node_first. destruct (first name) as [c|]; [|exact I].
+      destruct body as [ | | | | | | |bx by_| | | | | | ]; try discriminate.
+      destruct bx as [sx| | | | | | | | | | | | | ]; try discriminate.
+      destruct sx as [|c' [|? ?]]; try discriminate. apply N.eqb_eq in Hname. subst c'.
+      cbn [run] in Eb. destruct (strip_prefix [c] (rest i)) as [r|] eqn:Esp; [|discriminate].
+      destruct Hs as (pre & Hc & Hp). exists pre.
+      cbn [strip_prefix] in Esp. destruct (rest i) as [|d r']; [discriminate|].
+      destruct (N.eqb_spec c d) as [<-|]; [|discriminate]. exists r'. split; [exact Hc|symmetry; exact Hp].
+    - apply andb_true_iff in Hso. destruct Hso as [Hx Hy].
+      destruct (run U sk x a look i) as [| |i1 t1] eqn:Ex; try discriminate.
+      destruct (do_skip sk a i1) as [i1'|] eqn:Es; [|discriminate].
+      destruct (run U sk y a look i1') as [| |i2 t2] eqn:Ey; try discriminate. inversion H; subst.
+      pose proof (run_consumes U sk sk_adv _ _ _ _ _ _ Ex) as A1.
+      pose proof (do_skip_adv sk sk_adv _ _ _ Es) as A2.
+      apply all_first_app; [eapply IHx; eauto|].
+      eapply IHy; [exact Hy| |exact Ey]. eapply suffix_adv; [eapply suffix_adv; eauto|exact A2].
+    - apply andb_true_iff in Hso. destruct Hso as [Hx Hy].
+      destruct (run U sk x a look i) as [| |i1 t1] eqn:Ex.
+      + eapply IHy; eauto.
+      + discriminate.
+      + inversion H; subst. eapply IHx; eauto.
+    - destruct (run U sk x a look i) as [| |i1 t1] eqn:Ex.
+      + inversion H; subst. exact I.
+      + discriminate.
+      + inversion H; subst. eapply IHx; eauto.
+    - destruct (run U sk x a look i) as [| |i1 t1] eqn:Ex.
+      + inversion H; subst. exact I.
+      + discriminate.
+      + destruct (pos i <? pos i1); [|discriminate].
+        pose proof (run_consumes U sk sk_adv _ _ _ _ _ _ Ex) as A1.
+        eapply rep_loop_first; [| |eapply IHx; eauto|exact H].
+        * intros j j' tj Hsj Hj. cbn beta in Hj.
+          destruct (do_skip sk a j) as [j1|] eqn:Es; [|discriminate].
+          pose proof (do_skip_adv sk sk_adv _ _ _ Es) as A2.
+          pose proof (run_consumes U sk sk_adv _ _ _ _ _ _ Hj) as A3.
+          split; [eapply adv_trans; eauto|].
+          eapply IHx; [exact Hso| |exact Hj]. eapply suffix_adv; eauto.
+        * eapply suffix_adv; eauto.
+    - inversion H; subst. exact I.
+    - destruct (run U sk x a true i) as [| |i1 t1]; try discriminate. inversion H; subst. exact I.
+    - destruct (run U sk x a true i) as [| |i1 t1]; try discriminate. inversion H; subst. exact I.
+  Qed.
+End First.
+
 (* ---- which rule names can appear at the top level of the tokens of an expression ---- *)
 Fixpoint top_names (e : expr) (a : atomicity) (look : bool) : list string :=
   match e with
